@@ -8,7 +8,7 @@ import lib
 from lib import esc, esc_list, unesc_list
 
 THEOREMS = ['C04.C04_ignore_exact', 'C04.C04_flat_lossless', 'C04.C04_collision_loses', 'C04.C04_overwrite_links',
-            'C04.C04_spec_example']
+            'C04.C04_spec_example', 'C04.C04_spec_is_core', 'C04.C04_no_leak', 'C04.C04_no_loss', 'C04.C04_rest_kept']
 
 
 def sha(p):
